@@ -411,7 +411,9 @@ class TestCase:  # noqa: PLR0904
             True if all references are satisfiable, False if the statement must
             be dropped.
         """
-        for name in stmt.used_variables():
+        # Sorted: a replacement is drawn per name, so the iteration order must not
+        # depend on the (randomised) string hashes of the set.
+        for name in sorted(stmt.used_variables()):
             if name in dropped:
                 return False
             if name in rename:
